@@ -230,6 +230,55 @@ func init() {
 		}
 		l.p("/-- `chkSelector.getPosForward`: the end-of-data position does not read `Count()` again (53beb1f) -/")
 		l.p("def fwdEndPosFromDecisionCount : Bool := %s", leanBool(fromDecision))
+		// --- newCursor sorts its sources; the empty cursor keeps the request's state -------------------------
+		sorts := false
+		if fd := funcDecl(cf, "", "newCursor"); fd == nil {
+			problem("cursor.newCursor not found")
+		} else {
+			sawSort := false
+			ast.Inspect(fd.Body, func(n ast.Node) bool {
+				switch x := n.(type) {
+				case *ast.CallExpr:
+					if c03Str(x.Fun) == "sort.Slice" && len(x.Args) == 2 && c03Str(x.Args[0]) == "lines" {
+						sawSort = true
+					}
+				case *ast.RangeStmt:
+					// the loop that wraps the iterators must range over the sorted slice, not over the map
+					if sawSort && c03Str(x.X) == "lines" {
+						ast.Inspect(x.Body, func(m ast.Node) bool {
+							if ce, ok := m.(*ast.CallExpr); ok && strings.HasSuffix(c03Str(ce.Fun), ".Wrap") {
+								sorts = true
+							}
+							return true
+						})
+					}
+				}
+				return true
+			})
+		}
+		l.p("/-- `newCursor` builds the mixer tree over the sources sorted by tag line (f086c95) -/")
+		l.p("def newCursorSortsSources : Bool := %s", leanBool(sorts))
+		keepsState := false
+		pf := parseFile("pkg/cursor/provider.go")
+		if g, r := funcDecl(pf, "provider", "GetOrCreate"), funcDecl(pf, "provider", "Release"); g == nil || r == nil {
+			problem("provider.GetOrCreate / Release not found")
+		} else {
+			makes := strings.Contains(c03Str(g.Body), "emptyCursor{st: State{Query: state.Query, Pos: state.Pos}}")
+			gives := false
+			ast.Inspect(r.Body, func(n ast.Node) bool {
+				if is, ok := n.(*ast.IfStmt); ok && is.Init != nil && strings.Contains(c03Str(is.Init), "curs.(emptyCursor)") {
+					for _, st := range is.Body.List {
+						if rs, ok := st.(*ast.ReturnStmt); ok && len(rs.Results) == 1 && c03Str(rs.Results[0]) == "ec.st" {
+							gives = true
+						}
+					}
+				}
+				return true
+			})
+			keepsState = makes && gives
+		}
+		l.p("/-- the empty cursor (no partition matches) is built with the request's Query and Pos and `Release` returns them (a8a4a54) -/")
+		l.p("def emptyCursorKeepsState : Bool := %s", leanBool(keepsState))
 		l.write()
 	}
 	generators["C03"] = gen
